@@ -12,7 +12,7 @@ from hypothesis import HealthCheck, Phase, settings, strategies as st
 from hypothesis.stateful import (RuleBasedStateMachine, initialize, rule,
                                  run_state_machine_as_test)
 
-from pv import gen
+from pv import bgen, gen
 from pv.dump import dump
 from pv.runner import Violation
 
@@ -69,7 +69,7 @@ class Profile(object):
 
     def __init__(self, name, prop, ops, oracles, nontrivial, steps=30,
                  version_lo=0, boundaries=(), defect_rate=3, base='custom',
-                 init=None, after_step=None, builders=None):
+                 init=None, after_step=None, builders=None, rich_start=0):
         self.name = name
         self.prop = prop
         self.ops = []
@@ -85,6 +85,9 @@ class Profile(object):
         self.init = init
         self.after_step = after_step
         self.builders = builders or {}
+        # n in 10 histories start from a generated populated state (forest,
+        # inventories, traits, shared aggregates, consumers) instead of empty
+        self.rich_start = rich_start
 
 
 DEFECTS = {
@@ -149,6 +152,13 @@ def build(draw, d, prof, name):
     return f(draw, d, v)
 
 
+def start_from_state(m, desc):
+    from pv import bgen as _bgen
+    _bgen.build_state(m.svc, desc, base_snapshot(m.svc, m.prof.base))
+    m.start = desc
+    m.d = dump(m.svc.dbpath)
+
+
 class Recorder(object):
     """Per-worker bookkeeping shared by all examples."""
 
@@ -175,9 +185,13 @@ class ApiMachine(RuleBasedStateMachine):
         self.h = hashlib.sha1()
         self.memo = {}          # free-form per-example oracle memory
         self.step_no = 0
+        self.start = None       # description of a generated start state
 
     @initialize(data=st.data())
     def init(self, data):
+        if self.prof.rich_start and data.draw(st.integers(0, 9)) < \
+                self.prof.rich_start:
+            start_from_state(self, data.draw(bgen.states(max_providers=5)))
         if self.prof.init:
             self.prof.init(self, data.draw)
 
@@ -243,6 +257,7 @@ class ApiMachine(RuleBasedStateMachine):
         record = {'signature': sig, 'detail': v.detail,
                   'replay': {'profile': self.prof.name,
                              'config': dict(self.config),
+                             'start': self.start,
                              'steps': [t['req'] for t in self.trace],
                              'statuses': [t['status'] for t in self.trace]}}
         self.rec.last_fail = (key, record)
@@ -364,6 +379,8 @@ def replay_machine(ctx, prof, data):
     m = cls()
     m.config = dict(data.get('config') or {})
     apply_config(m)
+    if data.get('start'):
+        start_from_state(m, data['start'])
     out = []
     for req in data['steps']:
         try:
